@@ -154,6 +154,41 @@ def check_guards(ctx, mf):
     {"detach-only-roots": "an element that still has a parent is being detached", "attach-only-detached": "part of the subtree already belongs to a document"})
 
 
+def check_detach(ctx):
+  """PAIR-detach: in set_doc, every element whose owning document is rewritten also has its
+  region reference cleared when the document is None (the whole subtree is detached, so no
+  element may keep a reference to a region of the old document)."""
+  ix = ctx.ix
+  f = ix.func("ttconv.model:ContentElement.set_doc")
+  ctx.unit(f.module)
+  docp = f.params[1]
+  ok = False
+  why = "no loop over the subtree writes _doc"
+  for lp in own_nodes(f.node):
+    if isinstance(lp, ast.For) and ("dfs_iterator()" in unparse(lp.iter)):
+      v = unparse(lp.target)
+      writes_doc = any(isinstance(st, ast.Assign) and unparse(st.targets[0]) == f"{v}._doc" for st in own_nodes(lp))
+      if not writes_doc:
+        continue
+      clears = False
+      for st in own_nodes(lp):
+        if isinstance(st, ast.If) and unparse(st.test).replace(" ", "") == f"{docp}isNone":
+          for x in own_nodes(st):
+            if (isinstance(x, ast.Assign) and unparse(x.targets[0]) == f"{v}._region" and unparse(x.value) == "None") or \
+               (isinstance(x, ast.Call) and unparse(x.func) == f"{v}.set_region" and x.args and unparse(x.args[0]) == "None"):
+              clears = True
+      ok = clears
+      why = "the loop that rewrites _doc clears _region of the same element when doc is None" if clears else \
+        f"the loop rewrites `{v}._doc` but does not clear `{v}._region` when `{docp} is None`"
+  # the recursive formulation (self + children through set_doc) is accepted as well
+  if not ok:
+    txt = unparse(f.node)
+    if "self.set_region(None)" in txt and ".set_doc(doc)" in txt and "for " in txt:
+      ok, why = True, "recursive: each element clears its own region and recurses into its children"
+  ctx.check(ok, "PAIR-detach", f"{f.qualname}|detaching clears the region reference of every element of the subtree", ctx.where(f.module, f.node), why,
+            f"set_doc(None): {why}; a detached descendant keeps referencing a region of its former document and carries it into the next document")
+
+
 def check_value_stores(ctx, mf):
   """Stores into _styles / _initial_values are dominated by <prop>.validate(value); _sets by an
   isinstance(step, DiscreteAnimationStep) guard; the step validates itself."""
@@ -254,6 +289,7 @@ def run(ctx):
   ctx.floor("ORD-atomic", "state-writing single-element mutators", na, 25)
   check_value_stores(ctx, mf)
   check_registry(ctx, mf)
+  check_detach(ctx)
   ms = common.mods(ctx, ["ttconv.model", "ttconv.style_properties"]) if ctx.tier == "quick" else list(ix.modules.values())
   lint.lazy_discarded(ctx, ms, rule="LINT-a")
   nq = lint.vacuous_quantifier(ctx, ms, rule="LINT-b")
